@@ -213,6 +213,9 @@ func (u *Universe) AddMethodTypes(meth []*Type, quick bool, seed int64, nSample 
 		case "slice":
 			return comp(t.E)
 		case "map":
+			if t.Key.Meth != "" { // keyed by the unclamped-Compare fixture
+				return true
+			}
 			return t.Key.K == "basic" && t.Key.B == "int" && comp(t.E)
 		case "struct":
 			if t.Meth != "" || t.Pkg != "local" || len(t.Fields) != 1 || !exported(t.Fields[0].Name) {
@@ -235,7 +238,9 @@ func (u *Universe) AddMethodTypes(meth []*Type, quick bool, seed int64, nSample 
 	}
 	// fixed: a method-bearing struct nested in a comparable struct (compared with == as a whole)
 	for _, mk := range methOrder {
-		core = append(core, Struct("S3", "local", F("A", Struct("S2", "local", F("A", MStruct(mk))))))
+		if mk != "pd" {
+			core = append(core, Struct("S3", "local", F("A", Struct("S2", "local", F("A", MStruct(mk))))))
+		}
 	}
 	add := core
 	if quick {
